@@ -30,7 +30,8 @@ COMPONENTS = common.COMPONENTS
 EXPECT_PROBES = ["crash_after_flip", "crash_before_flip", "recovered_post", "recovered_pre", "gc_deleted_leftover"]
 
 OPS = ["create", "create_noschema", "append", "append_with", "append_explicit", "multi", "delete_file",
-       "delete_file_append", "expire", "expire_append", "delete_snapshot", "gc0", "gc1h"]
+       "delete_file_append", "expire", "expire_append", "delete_snapshot", "gc0", "gc1h",
+       "files_append_raw", "files_append_raw_late"]
 
 
 def op_under_test(name: str) -> dict:
